@@ -59,6 +59,8 @@ def gen_objdef(rng, feat, placeholders=None):
         kw = {'a': rng.choice([1, 'z', [1, 2]])}
         for k_ in rng.sample(['upper', 'lower', 'mode'], rng.randint(0, 2)):
             kw[k_] = rng.choice([5, 50, 'x', None])
+        if rng.random() < 0.3:
+            kw['shape'] = rng.choice([[4, 3], [2], []])
         return {'class': 'tc_verif.lab.runtime.LabObjVar', 'kwargs': kw}
     if rng.random() < 0.12:
         return {'class': 'tc_verif.lab.runtime.LabObjDerived', 'kwargs': {'root': rng.choice(['data/x', 'r'] + (['{' + placeholders[0] + '}/corpus'] if placeholders else []))}}
@@ -112,6 +114,8 @@ def gen_spec(rng: random.Random, feat=None):
             kindr = rng.random()
             if feat['module_tasks'] and kindr < 0.15:
                 ts['base'] = 'ModuleTask'
+                if rng.random() < 0.35:
+                    ts['stray_group'] = rng.choice(['leftover', 'g'])     # a `task_group` left in the Meta of a ModuleTask: ignored, the module names the group
             elif feat['module_tasks'] and kindr < 0.25 and package:
                 ts['base'] = 'DoubleModuleTask'
             elif feat['groups']:
